@@ -1,3 +1,204 @@
-(* C29 — placeholder until the theorems are in (pipeline first). *)
-From Coq Require Import NArith List.
-From LV Require Import model.Wlru spec.LruSpec.
+(* C29 — Weighted LRU caches follow the LRU model.
+   Only theorem statements, each closed by [exact <lemma>], Examples for non-vacuity, and
+   Print Assumptions.  Model: model/Wlru.v (simplewlru + wlru); specification: spec/LruSpec.v.
+
+   Standing assumptions (in every statement): [keqb] decides equality of keys (Go map keys);
+   weights and weight bounds are [small] (< 2^63), so that the Go [uint] weight counter, whose
+   wrap-around the model spells out, never wraps.  [reachable keqb c]: c is the state after
+   some history  new ; op ; ... ; op  with small weights. *)
+From Coq Require Import NArith ZArith List Permutation.
+From Coq Require Import Sorted.
+From LV Require Import model.Wlru spec.LruSpec spec.LruRecency proofs.WlruProofs proofs.WlruRecency.
+Import ListNotations.
+Local Open Scope N_scope.
+
+Section C29.
+  Context {K V : Type}.
+  Variable keqb : K -> K -> bool.
+  Hypothesis keqb_spec : forall a b, keqb a b = true <-> a = b.
+
+  (* 1. After every operation of every history and for ALL bounds (incl. 0): at most
+        max_size entries, total weight at most max_weight (the bounds in force are those of
+        the last Resize), distinct keys, the cached weight is the true sum, and the
+        normalize loop never hangs. *)
+  Theorem C29_bounds_after_every_history :
+    forall mw ms ops (c0 c : cache K V) tr,
+    small mw -> Forall op_small ops -> new mw ms = Some c0 -> run keqb c0 ops = (c, tr) ->
+    let b := bounds_after (mw, z_to_N ms) ops in
+    len c <= snd b /\ sumw (c_entries c) <= fst b /\ NoDup (keys c) /\
+    weight c = sumw (c_entries c) /\ c_stuck c = false.
+  Proof. exact (run_bounds keqb keqb_spec). Qed.
+
+  (* 2. Refinement: every history produces exactly the results and callback logs of the
+        recency-list specification, and ends in the abstraction of the final cache. *)
+  Theorem C29_refines_lru_spec :
+    forall mw ms ops (c0 c : cache K V) tr,
+    small mw -> Forall op_small ops -> new mw ms = Some c0 -> run keqb c0 ops = (c, tr) ->
+    exists s0, s_new mw ms = Some s0 /\ s_run keqb s0 ops = (abs c, tr).
+  Proof. exact (run_refines_new keqb keqb_spec). Qed.
+
+  Theorem C29_step_refines :
+    forall (c : cache K V) o c' r lg,
+    reachable keqb c -> op_small o -> step keqb c o = (c', r, lg) ->
+    s_step keqb (abs c) o = (abs c', r, lg) /\ reachable keqb c'.
+  Proof. exact (step_refines_reach keqb keqb_spec). Qed.
+
+  (* 3. Add: k becomes the newest key; the evicted keys are the OLDEST ones, reported oldest
+        first; log + content afterwards = new pair + old content without k's old value
+        (each removed entry reported exactly once, nothing else reported); the count
+        returned is the number of callbacks. *)
+  Theorem C29_add_evicts_least_recently_used :
+    forall k v w (c c' : cache K V) lg n,
+    reachable keqb c -> small w -> add keqb k v w c = (c', lg, n) ->
+    map fst lg ++ keys c' = filter (fun x => negb (keqb k x)) (keys c) ++ [k] /\
+    Permutation (lg ++ pairs c') ((k, v) :: map kv (remove_key keqb k (c_entries c))) /\
+    n = N.of_nat (length lg).
+  Proof. exact (add_lru_reach keqb keqb_spec). Qed.
+
+  (* every eviction is forced: with the dropped entry still inside, a bound was exceeded *)
+  Theorem C29_add_evicts_no_more_than_needed :
+    forall k v w (c c' : cache K V) lg n,
+    reachable keqb c -> small w -> add keqb k v w c = (c', lg, n) ->
+    exists ev, lg = map kv (rev ev) /\
+      mkEntry k v w :: remove_key keqb k (c_entries c) = c_entries c' ++ ev /\
+      forall pre x suf, rev ev = pre ++ x :: suf ->
+        over (c_max_weight c) (c_max_size c) (length (x :: suf ++ rev (c_entries c')))
+             (sumw (x :: suf ++ rev (c_entries c'))) = true.
+  Proof. exact (add_minimal_reach keqb keqb_spec). Qed.
+
+  (* 4. An entry heavier than the bound is evicted by the very Add that inserts it. *)
+  Theorem C29_heavy_entry_evicted_at_once :
+    forall k v w (c c' : cache K V) lg n,
+    reachable keqb c -> small w -> c_max_weight c < w -> add keqb k v w c = (c', lg, n) ->
+    In (k, v) lg /\ c_entries c' = [] /\ contains keqb k c' = false.
+  Proof. exact (add_heavy_reach keqb keqb_spec). Qed.
+
+  (* 5. Get refreshes recency (and only that); Peek, Contains, GetOldest, Keys, Len, Weight
+        change nothing. *)
+  Theorem C29_get_refreshes :
+    forall k (c c' : cache K V) r,
+    reachable keqb c -> get keqb k c = (c', r) ->
+    match r with
+    | Some v => In (k, v) (pairs c) /\ keys c' = filter (fun x => negb (keqb k x)) (keys c) ++ [k] /\
+                Permutation (pairs c') (pairs c)
+    | None => c' = c /\ ~ In k (keys c)
+    end.
+  Proof. exact (get_lru_reach keqb keqb_spec). Qed.
+
+  Theorem C29_peek_contains_do_not_refresh :
+    forall (c : cache K V) o c' r lg,
+    match o with OPeek _ | OContains _ | OGetOldest | OKeys | OLen | OWeight => True | _ => False end ->
+    step keqb c o = (c', r, lg) -> c' = c /\ lg = [].
+  Proof. exact (readonly_ops keqb). Qed.
+
+  (* 6. Remove / RemoveOldest / Purge / Resize report exactly what they drop, once. *)
+  Theorem C29_remove_reports_once :
+    forall k (c c' : cache K V) lg b,
+    reachable keqb c -> remove keqb k c = (c', lg, b) ->
+    Permutation (lg ++ pairs c') (pairs c) /\
+    keys c' = filter (fun x => negb (keqb k x)) (keys c) /\
+    (b = true <-> In k (keys c)) /\ (b = false -> lg = []) /\ (b = true -> exists v, lg = [(k, v)]).
+  Proof. exact (remove_reports_reach keqb keqb_spec). Qed.
+
+  Theorem C29_remove_oldest_reports_once :
+    forall (c c' : cache K V) lg r,
+    remove_oldest c = (c', lg, r) ->
+    match r with
+    | Some p => lg = [p] /\ map fst lg ++ keys c' = keys c /\ Permutation (lg ++ pairs c') (pairs c)
+    | None => lg = [] /\ c' = c /\ keys c = []
+    end.
+  Proof. exact remove_oldest_reports. Qed.
+
+  Theorem C29_purge_reports_everything :
+    forall (c c' : cache K V) lg, purge c = (c', lg) -> c_entries c' = [] /\ lg = pairs c.
+  Proof. exact purge_reports. Qed.
+
+  Theorem C29_resize_evicts_oldest :
+    forall mw ms (c c' : cache K V) lg n,
+    reachable keqb c -> small mw -> resize mw ms c = Some (c', lg, n) ->
+    map fst lg ++ keys c' = keys c /\ Permutation (lg ++ pairs c') (pairs c) /\
+    n = N.of_nat (length lg) /\ c_max_weight c' = mw /\ c_max_size c' = z_to_N ms /\ z_neg ms = false.
+  Proof. exact (resize_lru_reach keqb keqb_spec). Qed.
+
+  (* 7. The specification read on its own: what survives a trim is the LONGEST suffix
+        (newest part) of the recency list that fits both bounds. *)
+  Theorem C29_spec_keeps_longest_fitting_suffix :
+    forall mw ms (l ev kp : list (@item K V)),
+    trim mw ms l = (ev, kp) ->
+    ev ++ kp = l /\ fits mw ms kp = true /\
+    forall ev' kp', ev' ++ kp' = l -> fits mw ms kp' = true -> (length kp' <= length kp)%nat.
+  Proof. intros mw ms l ev kp H; split; [exact (trim_split _ _ _ _ _ H) | split; [exact (trim_fits _ _ _ _ _ H) | exact (trim_longest _ _ _ _ _ H)]]. Qed.
+
+  (* 8. LRU order against a notion of recency that mentions no cache state
+        (spec/LruRecency.v: time of the last Add / successful Get / adding ContainsOrAdd or
+        PeekOrAdd of the key in the history): Keys lists the keys from the least to the most
+        recently used, and an operation evicts only entries used less recently than all it keeps. *)
+  Theorem C29_keys_sorted_by_last_use :
+    forall mw ms ops (c0 c : cache K V) tr,
+    small mw -> Forall op_small ops -> new mw ms = Some c0 -> run keqb c0 ops = (c, tr) ->
+    StronglySorted (fun a b => (last_use keqb a ops tr < last_use keqb b ops tr)%nat) (keys c) /\
+    forall k, In k (keys c) -> (0 < last_use keqb k ops tr)%nat.
+  Proof. exact (keys_sorted_by_last_use keqb keqb_spec). Qed.
+
+  Theorem C29_evicted_used_less_recently_than_kept :
+    forall mw ms ops (c0 c : cache K V) tr o c' r lg,
+    small mw -> Forall op_small ops -> op_small o -> new mw ms = Some c0 ->
+    run keqb c0 ops = (c, tr) -> step keqb c o = (c', r, lg) -> evicting o = true ->
+    forall x y, In x (map fst lg) -> In y (keys c') ->
+      (last_use keqb x (ops ++ [o]) (tr ++ [(r, lg)]) < last_use keqb y (ops ++ [o]) (tr ++ [(r, lg)]))%nat.
+  Proof. exact (evicts_least_recently_used keqb keqb_spec). Qed.
+End C29.
+
+(* ---- non-vacuity: concrete histories over numeric keys ---- *)
+Definition ex_ops : list (op N N) :=
+  [OAdd 1 10 2; OAdd 2 20 1; OGet 1; OAdd 3 30 1; OAdd 4 40 9; OResize 5 3; OAdd 5 50 0; OAdd 6 60 0; OPeek 5; OAdd 7 70 0; OAdd 8 80 0; OKeys].
+
+(* bounds (3, 2): the third Add evicts key 2 (key 1 was refreshed by Get), the heavy Add of
+   key 4 empties the cache and reports itself, after Resize three weightless entries fit and a
+   fourth evicts the oldest (5, although it was peeked) *)
+Example C29_ex_history :
+  exists c0 c, new 3 2%Z = Some c0 /\
+  run N.eqb c0 ex_ops =
+    (c, [(RCount 0, []); (RCount 0, []); (RVal (Some 10), []); (RCount 1, [(2, 20)]);
+         (RCount 3, [(1, 10); (3, 30); (4, 40)]); (RCount 0, []); (RCount 0, []); (RCount 0, []);
+         (RVal (Some 50), []); (RCount 0, []); (RCount 1, [(5, 50)]); (RKeys [6; 7; 8], [])]) /\
+  Forall op_small ex_ops /\ small 3.
+Proof.
+  eexists _, _. split; [reflexivity|]. split; [vm_compute; reflexivity|].
+  split; [repeat constructor | reflexivity].
+Qed.
+
+(* in that history: keys 6, 7, 8 were last used at times 8, 10, 11; key 5 (evicted by the Add of 8)
+   at time 7 -- the Peek at time 9 does not count *)
+Example C29_ex_last_use :
+  forall c0 c tr, new 3 2%Z = Some c0 -> run N.eqb c0 ex_ops = (c, tr) ->
+  map (fun k => last_use N.eqb k ex_ops tr) [5; 6; 7; 8] = [7; 8; 10; 11]%nat /\ keys c = [6; 7; 8].
+Proof. intros c0 c tr [= <-]. vm_compute. intros [= <- <-]. split; reflexivity. Qed.
+
+Example C29_ex_reachable : exists c : cache N N, reachable N.eqb c /\ c_entries c <> [] /\ c_max_weight c < 9.
+Proof.
+  exists (mkCache [mkEntry 3 30 1; mkEntry 1 10 2] 3 3 2 false). split; [|split; [discriminate | reflexivity]].
+  exists 3, 2%Z, [OAdd 1 10 2; OAdd 2 20 1; OGet 1; OAdd 3 30 1], (mkCache [] 0 3 2 false).
+  eexists. split; [reflexivity|]. split; [repeat constructor|]. split; [reflexivity | vm_compute; reflexivity].
+Qed.
+
+(* rejected configurations: the constructor refuses a negative size; Resize with a negative
+   size does not return (modelled as RDiverge and not part of any history's domain) *)
+Example C29_ex_negative_size : @new N N 3 (-1)%Z = None /\ @s_new N N 3 (-1)%Z = None.
+Proof. split; reflexivity. Qed.
+
+Print Assumptions C29_bounds_after_every_history.
+Print Assumptions C29_refines_lru_spec.
+Print Assumptions C29_step_refines.
+Print Assumptions C29_add_evicts_least_recently_used.
+Print Assumptions C29_add_evicts_no_more_than_needed.
+Print Assumptions C29_heavy_entry_evicted_at_once.
+Print Assumptions C29_get_refreshes.
+Print Assumptions C29_peek_contains_do_not_refresh.
+Print Assumptions C29_remove_reports_once.
+Print Assumptions C29_remove_oldest_reports_once.
+Print Assumptions C29_purge_reports_everything.
+Print Assumptions C29_resize_evicts_oldest.
+Print Assumptions C29_spec_keeps_longest_fitting_suffix.
+Print Assumptions C29_keys_sorted_by_last_use.
+Print Assumptions C29_evicted_used_less_recently_than_kept.
